@@ -54,43 +54,54 @@ inductive LevelHdr where
   | bad (why : String)
 deriving Repr
 
+/-- `n` box lines starting at line `i`: `((lo) (hi) (type))` -/
+def parseBoxes (line : Nat → Bytes) : Nat → Nat → Option (List (List Int × List Int))
+  | _, 0 => some []
+  | i, n + 1 =>
+    match splitWs (line i) with
+    | [a, b, _] => do
+      let lo ← intList (remove 41 (remove 40 a))
+      let hi ← intList (remove 41 (remove 40 b))
+      let rest ← parseBoxes line (i + 1) n
+      pure ((lo, hi) :: rest)
+    | _ => none
+
+/-- one `FabOnDisk: <file> <offset>` line per box, starting at line `i` -/
+def parseFabs (line : Nat → Bytes) : Nat → List (List Int × List Int) → Option (List Entry)
+  | _, [] => some []
+  | i, (lo, hi) :: bs =>
+    match splitWs (line i) with
+    | [_, f, o] => do
+      let ov ← pyInt o
+      let rest ← parseFabs line (i + 1) bs
+      pure (⟨lo, hi, String.fromUTF8! ⟨f.toArray⟩, ov⟩ :: rest)
+    | _ => none
+
 /-- read_cell_headers (maxmins = False) on the lines of a Cell_H file -/
-def parseCellH (text : Bytes) (nfields : Nat) : LevelHdr := Id.run do
-  -- python readline() semantic: lines incl. newline; past EOF = empty
-  let lines := (splitOn NL text)
+def parseCellH (text : Bytes) (nfields : Nat) : LevelHdr :=
+  let lines := splitOn NL text
   let line (i : Nat) : Bytes := lines.getD i []
   match pyInt (line 2) with
-  | none => return .bad "nfields"
+  | none => .bad "nfields"
   | some nfv =>
-    if nfv ≠ nfields then return .bad "nfields-assert" else
+    if nfv ≠ nfields then .bad "nfields-assert" else
     match (splitWs (line 4)).head? with
-    | none => return .bad "ncells-empty"
+    | none => .bad "ncells-empty"
     | some t =>
       match pyInt (remove 40 t) with
-      | none => return .bad "ncells"
+      | none => .bad "ncells"
       | some nc =>
         let n := nc.toNat
-        let mut entries : List (List Int × List Int) := []
-        for k in List.range n do
-          match splitWs (line (5 + k)) with
-          | [a, b, _] =>
-            match intList (remove 41 (remove 40 a)), intList (remove 41 (remove 40 b)) with
-            | some lo, some hi => entries := entries ++ [(lo, hi)]
-            | _, _ => return .bad "box-int"
-          | _ => return .bad "box-tokens"
-        match pyInt (line (6 + n)) with
-        | none => return .bad "ncells2"
-        | some n2 =>
-          if n2 ≠ nc then return .bad "ncells2-assert" else
-          let mut out : List Entry := []
-          for k in List.range n do
-            match splitWs (line (7 + n + k)) with
-            | [_, f, o] =>
-              match pyInt o with
-              | some ov => out := out ++ [⟨(entries.getD k ([], [])).1, (entries.getD k ([], [])).2, String.fromUTF8! ⟨f.toArray⟩, ov⟩]
-              | none => return .bad "offset-int"
-            | _ => return .bad "fab-tokens"
-          return .ok out
+        match parseBoxes line 5 n with
+        | none => .bad "box"
+        | some boxes =>
+          match pyInt (line (6 + n)) with
+          | none => .bad "ncells2"
+          | some n2 =>
+            if n2 ≠ nc then .bad "ncells2-assert" else
+            match parseFabs line (7 + n) boxes with
+            | none => .bad "fab"
+            | some es => .ok es
 
 /-- mp_fun_headers for one file: entries sorted by offset -/
 def headersOK (raw : Bytes) (nfields : Nat) (es : List Entry) : Bool :=
